@@ -1,13 +1,13 @@
 """C03 - unordered super-reconciliation (SuperDTL) returns a minimum-cost solution."""
 from .. import gen, pkg
-from ..plain import Instance, gain_nodes, labeling_losses
+from ..plain import INF, Instance, gain_nodes, labeling_losses
 from ..runner import Result, Violation
 from ..solver_common import common_labels, reference, solution_features, validate_output
 
 ID = "C03"
 LEVEL = "exploration"
 LEVEL_TEXT = (
-    "Random search (Hypothesis, 16 seeded shards) against an independent optimum over all species mappings x ALL family-set "
+    "Bounded-exhaustive (all inputs <=3-4x3 leaves, <=2-3 families, cost grid) plus random search (Hypothesis, 16 seeded shards) against an independent optimum over all species mappings x ALL family-set "
     "labellings between required content and gain-allowed content (not only the solver's two canonical choices): finds wrong optima, "
     "invalid labellings, exceptions and decode-time mutation of shared sets within <=6 object leaves, <=4 species leaves, <=5 families."
 )
@@ -15,10 +15,10 @@ LEVEL_NOTE = (
     "Trusted: harness/plain.py, harness/oracles.py (recursion cross-checked by enumeration per case), Hypothesis. Costs inside "
     "spe + 2*sloss <= dup + 2*floss. Leaf syntenies non-empty; no synteny prescribed for the root (undocumented for unordered solvers)."
 )
-TECHNIQUE = "property-based testing: Hypothesis random inputs vs brute-force/recursive unordered super-reconciliation oracle"
+TECHNIQUE = "property-based testing: bounded-exhaustive + Hypothesis random inputs vs brute-force/recursive unordered super-reconciliation oracle"
 DESIGN_REF = "DESIGN.md section 5 (C03), 4.4, 4.7"
 RULE = (
-    "Hypothesis cases: binary object tree (<=6 leaves; thorough <=8), species tree (<=4 leaves; thorough <=6), leaf assignment, <=5 families, each leaf a "
+    "Bounded-exhaustive layer (see exhaustive_layer) + Hypothesis cases: binary object tree (<=6 leaves; thorough <=8), species tree (<=4 leaves; thorough <=6), leaf assignment, <=5 families, each leaf a "
     "non-empty family set, coherent costs.  Checked: usreconcile_extended_uspfs (ALL, ANY) cost == optimum over all mappings x all "
     "labellings in which each family is gained once at the LCA of its carriers; usreconcile_base_uspfs == optimum with the LCA mapping; "
     "outputs valid (V-MAP, V-UNO), package cost == recount; the gain/required sets computed from the input are equal before and after "
@@ -32,6 +32,13 @@ ASSUMPTIONS = [
 ]
 BUDGET = {"quick": {"random": 5000}, "thorough": {"random": 60000}}
 FUZZ = {"thorough": {"runs": 20000, "max_time": 900}}
+EXHAUSTIVE_RULE = {
+    "quick": "every plane binary object shape <=3 leaves x species shape <=3 leaves x leaf assignment x every assignment of a non-empty family "
+             "subset over <=2 families to each leaf, each with 4 of the 141 cost vectors of {0,1,2}^4 x hgt {0,1,inf} inside the region (rotating "
+             "residues: every vector meets 1/35 of the inputs)",
+    "thorough": "object <=4 x species <=3 leaves x <=2 families (75 078 inputs) with 8 vectors each, plus object <=3 x species <=3 leaves x 3 families with 16 vectors each",
+}
+EXHAUSTIVE_COMPLETE = False  # the random layer is not exhaustive
 
 
 def strategy(tier):
@@ -40,6 +47,28 @@ def strategy(tier):
                             allow_inconsistent=False)
     return gen.rec_case(max_obj=6, max_sp=4, min_obj=1, costs="coherent", labelled=True, max_fam=5,
                         allow_inconsistent=False)
+
+
+def exhaustive(tier):
+    if tier == "quick":
+        return [("a", i, 32, 35) for i in range(32)]
+    return [("b", i, 64, 17) for i in range(64)] + [("c", i, 64, 9) for i in range(64)]
+
+
+def run_job(job):
+    layer, idx, mod, stride = job
+    grid = list(gen.cost_grid((0, 1, 2), (0, 1, INF), labelled=True))
+    sizes = {"a": (3, 3, 2), "b": (4, 3, 2), "c": (3, 3, 3)}[layer]
+    for k, base in enumerate(gen.all_labelled_inputs(*sizes, ordered=False)):
+        if k % mod != idx:
+            continue
+        if layer == "c" and len({f for s in base["leaf_syntenies"].values() for f in s}) < 3:
+            continue  # <=2 families are part of layer b
+        for j, c in enumerate(grid):
+            if (k * 7 + j) % stride == 0:
+                case = dict(base)
+                case["costs"] = c
+                yield case
 
 
 def _helper_sets(inp):
